@@ -80,16 +80,18 @@ type Run struct {
 	hist     []string
 	keepHist bool
 
-	lastAllocTs uint64
-	maxAckedTs  uint64
-	inFlight    map[uint64]bool // commit ts allocated, not yet done
-	heightRng   *rand.Rand
-	startTime   time.Time
-	extra       func(r *Run) // scenario-specific end-of-run checks (inside the bubble, DB open)
-	harness     string
-	pmu         sync.Mutex
-	disk        *DiskTracker
-	phase       string
+	lastAllocTs  uint64
+	maxAckedTs   uint64
+	inFlight     map[uint64]bool // commit ts allocated, not yet done
+	heightRng    *rand.Rand
+	startTime    time.Time
+	extra        func(r *Run) // scenario-specific end-of-run checks (inside the bubble, DB open)
+	harness      string
+	pmu          sync.Mutex
+	disk         *DiskTracker
+	phase        string
+	maxDiscardTs uint64 // highest discard watermark any compaction used so far
+	compactions  int
 }
 
 func dumpAllStacks() {
@@ -243,6 +245,36 @@ func (r *Run) onEvent(gid int64, kind string, a, b uint64, key, val []byte) {
 		if n > 0 {
 			r.probe("begin_while_commit_in_flight")
 		}
+	case "compact.discardTs":
+		r.mu.Lock()
+		if a > r.maxDiscardTs {
+			r.maxDiscardTs = a
+		}
+		r.mu.Unlock()
+	case "compact.filled":
+		r.setPhase("compaction")
+		th, nx := int(a>>8), int(a&0xff)
+		switch {
+		case th == 0 && nx == 0:
+			r.probe("compact_L0_to_L0")
+		case th == 0:
+			r.probe("compact_L0_to_Lbase")
+		case th == nx:
+			r.probe("compact_Lmax_to_Lmax")
+		default:
+			r.probe("compact_Ln_to_Ln1")
+		}
+		if b&0xffff >= 3 {
+			r.probe("compact_split_subcompactions")
+		}
+	case "compact.done":
+		r.setPhase("")
+		r.probe("compaction_done")
+		r.mu.Lock()
+		r.compactions++
+		r.mu.Unlock()
+	case "l0.stall":
+		r.probe("l0_stall_poll")
 	case "mt.rotate":
 		r.probe("memtable_rotated")
 	case "flush.done":
@@ -417,7 +449,10 @@ func (r *Run) opGet(cl *clientState, idx int, op *Op) {
 	}
 	r.mu.Lock()
 	want := r.model.Read(string(key), ts.readTs, tnow)
-	if len(r.model.Commits) > ts.nCommitsAtBegin {
+	if len(r.model.Commits) > ts.nCommitsAtBegin && r.c.Cfg.NumCompactors == 0 {
+		r.stats.NonTrivial = true
+	}
+	if r.compactions > 0 {
 		r.stats.NonTrivial = true
 	}
 	var wantCopy Version
@@ -807,12 +842,19 @@ func (r *Run) opIter(cl *clientState, idx int, op *Op) {
 			}
 			got = append(got, g)
 		}
-		if ph.max > 0 && len(want) > ph.max {
+		relaxed := r.c.Cfg.NumCompactors > 0 && (it.AllV || it.KeyIter >= 0)
+		if ph.max > 0 && len(want) > ph.max && !relaxed {
 			want = want[:ph.max]
 		}
 		r.stats.Checks++
 		r.logf("c%d iter s%d %+v phase%d -> %d items", cl.id, op.S, *it, pi, len(got))
-		if msg := diffIter(want, got, ts.readTs); msg != "" {
+		msg := ""
+		if relaxed {
+			msg = r.diffIterRetention(want, got, it.Rev, tnow, ph.max > 0 && len(got) >= ph.max)
+		} else {
+			msg = diffIter(want, got, ts.readTs)
+		}
+		if msg != "" {
 			props := []string{"C05", "C01"}
 			if len(pend) > 0 {
 				props = append(props, "C04")
@@ -820,7 +862,7 @@ func (r *Run) opIter(cl *clientState, idx int, op *Op) {
 			r.violate(props, "iterator-sequence", "c%d iterator %+v (readTs=%d since=%d seek=%q rewind=%v): %s\n want=%s\n got =%s", cl.id, *it, ts.readTs, sinceTs, ph.seek, ph.rewind, msg, fmtItems(want), fmtItems(got))
 			return
 		}
-		if len(got) > 1 {
+		if len(got) > 1 && r.c.Cfg.NumCompactors == 0 {
 			r.stats.NonTrivial = true
 		}
 	}
@@ -846,6 +888,83 @@ func diffIter(want, got []expItem, readTs uint64) string {
 		}
 		if !w.Del && (w.UM != g.UM || w.Exp != g.Exp || w.Disc != g.Disc) {
 			return fmt.Sprintf("item %d key %q@%d: want um=%d exp=%d disc=%v got um=%d exp=%d disc=%v", i, w.Key, w.Ver, w.UM, w.Exp, w.Disc, g.UM, g.Exp, g.Disc)
+		}
+	}
+	return ""
+}
+
+// diffIterRetention compares an AllVersions result with the model when
+// compactions may have discarded versions: every returned item must be a
+// written version in the right order (subsequence of want), and every version
+// the retention rules promise (C13) must be present.
+func (r *Run) diffIterRetention(want, got []expItem, rev bool, tnow uint64, truncated bool) string {
+	r.mu.Lock()
+	D := r.maxDiscardTs
+	r.mu.Unlock()
+	N := r.c.Cfg.NumVersionsToKeep
+	// got must be a subsequence of want
+	j := 0
+	present := make([]bool, len(want))
+	for _, g := range got {
+		for j < len(want) && !(want[j].Key == g.Key && want[j].Ver == g.Ver) {
+			j++
+		}
+		if j == len(want) {
+			return fmt.Sprintf("item %q@%d is not a written version in iteration order (or appears twice)", g.Key, g.Ver)
+		}
+		w := want[j]
+		if w.Del != g.Del || (!w.Del && (!bytes.Equal(w.Val, g.Val) || w.UM != g.UM || w.Exp != g.Exp || w.Disc != g.Disc)) {
+			return fmt.Sprintf("item %q@%d differs from what was written: want %v got %v", g.Key, g.Ver, w, g)
+		}
+		present[j] = true
+		j++
+	}
+	limit := len(want)
+	if truncated {
+		// the caller stopped after Max items: nothing beyond the last one is owed
+		limit = j
+	}
+	// must-keep set, per key, newest first
+	byKey := map[string][]int{}
+	var order []string
+	for i, w := range want {
+		if _, ok := byKey[w.Key]; !ok {
+			order = append(order, w.Key)
+		}
+		byKey[w.Key] = append(byKey[w.Key], i)
+	}
+	for _, k := range order {
+		idx := byKey[k]
+		if rev { // want is oldest-first per key in reverse mode
+			for a, b := 0, len(idx)-1; a < b; a, b = a+1, b-1 {
+				idx[a], idx[b] = idx[b], idx[a]
+			}
+		}
+		kept := 0
+		stop := false
+		for _, i := range idx {
+			w := want[i]
+			must := false
+			switch {
+			case w.Pending:
+				must = true
+			case w.Ver > D:
+				must = true
+			case stop:
+			default:
+				if w.Del || expired(w.Exp, tnow) {
+					stop = true // the marker itself may or may not survive
+				} else {
+					must = true
+					kept++
+					if w.Disc || kept >= N {
+						stop = true
+					}
+				}
+			}
+			if must && i < limit && !present[i] {
+				return fmt.Sprintf("version %q@%d (discard watermark used so far <= %d, NumVersionsToKeep=%d) must be retained but is missing", w.Key, w.Ver, D, N)
+			}
 		}
 	}
 	return ""
@@ -980,9 +1099,37 @@ func (r *Run) bubble() {
 		r.harness = "open: " + err.Error()
 		return
 	}
-	r.prefill()
 	synctest.Wait() // everything Open started has settled before scheduling begins
 	e.Activate()
+	if r.c.Cfg.Prefill > 0 && !r.c.Cfg.Managed {
+		// Phase 0: the pre-fill runs under the scheduler too (coarse points,
+		// sequential policy, no decisions consumed) so that the state the
+		// explored part starts from is itself deterministic.
+		e.Sequential = true
+		e.SetGroups([]string{"client", "compactor", "flusher", "subcompact", "builder"})
+		pdone := false
+		go func() {
+			e.Register("prefill")
+			e.Point("client.op")
+			r.prefill()
+			r.mu.Lock()
+			pdone = true
+			r.mu.Unlock()
+		}()
+		res := e.Run(func() bool {
+			r.mu.Lock()
+			defer r.mu.Unlock()
+			return pdone
+		}, 2000000)
+		if res.Deadlock || res.StepBudget {
+			r.harness = "prefill did not finish: " + res.Dump
+			e.Stop()
+			return
+		}
+		r.stats.Probes["prefill_steps"] = e.Steps
+		e.Sequential = false
+		e.SetGroups(r.c.Cfg.Groups)
+	}
 	if r.disk != nil {
 		r.disk.Capture = true
 	}
@@ -1086,9 +1233,6 @@ func (r *Run) bubble() {
 // close to full and rotations/flushes happen inside the scheduled part.
 func (r *Run) prefill() {
 	cfg := &r.c.Cfg
-	if cfg.Prefill <= 0 || cfg.Managed {
-		return
-	}
 	target := cfg.MemTableSize * int64(cfg.Prefill) / 100
 	maxBatch := cfg.MemTableSize * 15 / 100
 	vsz := int(maxBatch / 3)
@@ -1105,19 +1249,37 @@ func (r *Run) prefill() {
 	r.mu.Lock()
 	r.byGid[goid()] = cl
 	r.mu.Unlock()
-	key := []byte("~fill")
+	fillKeys := [][]byte{[]byte("~fill")}
+	if cfg.PrefillAllKeys {
+		for i := range r.c.Keys {
+			fillKeys = append(fillKeys, r.key(i))
+		}
+	}
 	var written int64
-	for i := 0; written < target && i < 300; i++ {
+	for i := 0; written < target && i < 3000; i++ {
+		key := fillKeys[i%len(fillKeys)]
 		txn := r.db.NewTransaction(true)
 		w := WriteRec{Key: string(key), Val: MakeValue(99, i, 0, vsz)}
-		if err := txn.Set(key, w.Val); err != nil {
+		var err error
+		if cfg.PrefillAllKeys && i%7 == 6 {
+			w = WriteRec{Key: string(key), Del: true}
+			err = txn.Delete(key)
+		} else {
+			err = txn.Set(key, w.Val)
+		}
+		if errors.Is(err, badger.ErrTxnTooBig) {
+			txn.Discard() // e.g. a 300-byte key with a 2 KiB memtable
+			written += 8
+			continue
+		}
+		if err != nil {
 			txn.Discard()
 			r.harness = "prefill set: " + err.Error()
 			return
 		}
 		pc := &pendingCommit{opIdx: i, readTs: txn.ReadTs(), writes: []WriteRec{w}}
 		cl.cur = pc
-		err := txn.Commit()
+		err = txn.Commit()
 		cl.cur = nil
 		if err != nil || pc.rec == nil {
 			r.harness = fmt.Sprintf("prefill commit: %v", err)
